@@ -57,6 +57,9 @@ func (ev mariadbBinlogEvent) StripChecksum(f BinlogFormat) (BinlogEvent, []byte,
 		// Checksum is the last 4 bytes of the event buffer.
 		data := ev.Bytes()
 		length := len(data)
+		if length < int(f.HeaderLength)+4 {
+			return ev, nil, fmt.Errorf("event of %v bytes is too short to carry a checksum", length)
+		}
 		checksum := data[length-4:]
 		data = data[:length-4]
 		return mariadbBinlogEvent{binlogEvent: binlogEvent(data)}, checksum, nil
